@@ -105,30 +105,41 @@ fn cx_runtime() -> CxRuntime {
     Runtime::new().with_context_type::<C06Ctx>().expect("runtime with a context type")
 }
 
+/// `SourceFile::location_offset` (the line the text starts at inside a host file: reports display line numbers
+/// shifted by it and name the file `name@offset`) of every file of the case: a kind containing `[line+N]` asks for N.
+fn line_offset(case: &Case) -> usize {
+    case.kind
+        .split_once("[line+")
+        .and_then(|(_, r)| r.split_once(']'))
+        .and_then(|(n, _)| n.parse().ok())
+        .unwrap_or(0)
+}
+
 fn build_tree(case: &Case) -> FileTree {
-    fn sf(f: &CaseFile) -> SourceFile {
+    let off = line_offset(case);
+    fn sf(f: &CaseFile, off: usize) -> SourceFile {
         SourceFile {
             name: f.name.clone(),
             module_name: f.module.clone(),
             contents: f.src.clone(),
-            location_offset: 0,
+            location_offset: off,
             children: Vec::new(),
         }
     }
     if case.files.len() == 1 {
-        return FileTree::test_file(&case.files[0].name, &case.files[0].src, 0);
+        return FileTree::test_file(&case.files[0].name, &case.files[0].src, off);
     }
-    fn spec(case: &Case, i: usize) -> FileSpec {
+    fn spec(case: &Case, i: usize, off: usize) -> FileSpec {
         let kids: Vec<usize> = (0..case.files.len())
             .filter(|&j| case.files[j].parent == Some(i))
             .collect();
         if kids.is_empty() && i != 0 {
-            FileSpec::File(sf(&case.files[i]))
+            FileSpec::File(sf(&case.files[i], off))
         } else {
-            FileSpec::Directory(sf(&case.files[i]), kids.into_iter().map(|k| spec(case, k)).collect())
+            FileSpec::Directory(sf(&case.files[i], off), kids.into_iter().map(|k| spec(case, k, off)).collect())
         }
     }
-    FileTree::file_spec(spec(case, 0))
+    FileTree::file_spec(spec(case, 0, off))
 }
 
 fn stage(name: &str) {
